@@ -58,9 +58,9 @@ def forms_for(pairs):
     f = ["pairs_array"]
     if cons:
         f = ["edges_array", "pairs_array", "edges_list", "edges_tuple", "NumpyBinning", "NumpyBinning_nr",
-             "StaticBinning", "StaticBinning_r"]
+             "StaticBinning", "StaticBinning_r", "StaticBinning_selected"]
     else:
-        f = ["pairs_array", "pairs_list", "StaticBinning", "StaticBinning_r"]
+        f = ["pairs_array", "pairs_list", "StaticBinning", "StaticBinning_r", "StaticBinning_selected"]
     return f
 
 
@@ -86,6 +86,23 @@ def build_bins(pairs, form):
         return StaticBinning(np.array(pairs), includes_right_edge=False)
     if form == "StaticBinning_r":
         return StaticBinning(np.array(pairs), includes_right_edge=True)
+    if form == "StaticBinning_selected":
+        # the bins are a selection from a parent binning whose consecutiveness differs and was already asked for
+        if A.is_consecutive(pairs):
+            last = pairs[-1][1]
+            parent = StaticBinning(np.array(list(pairs) + [(last + 5.0, last + 6.0)]), includes_right_edge=False)
+            parent.is_consecutive()
+            return parent[0:len(pairs)]
+        full = []
+        idx = []
+        for i, pr in enumerate(pairs):
+            idx.append(len(full))
+            full.append(pr)
+            if i + 1 < len(pairs) and pr[1] != pairs[i + 1][0]:
+                full.append((pr[1], pairs[i + 1][0]))
+        parent = StaticBinning(np.array(full), includes_right_edge=False)
+        parent.is_consecutive()
+        return parent[np.array(idx)]
     raise ValueError(form)
 
 
